@@ -112,9 +112,18 @@ def main(argv):
         finally:
             shutil.rmtree(d, ignore_errors=True)
             shutil.rmtree(out, ignore_errors=True)
-    with open(os.path.join(ROOT, 'selftest', 'sensitivity_last.json'),
-              'w') as f:
-        json.dump(rows, f, indent=1)
+    last = os.path.join(ROOT, 'selftest', 'sensitivity_last.json')
+    if only and os.path.exists(last):
+        # a partial run updates the rows it re-ran and keeps the others
+        with open(last) as f:
+            old = json.load(f)
+        fresh = {r['mutant']: r for r in rows}
+        rows_out = [fresh.pop(r['mutant'], r) for r in old] + \
+            list(fresh.values())
+    else:
+        rows_out = rows
+    with open(last, 'w') as f:
+        json.dump(rows_out, f, indent=1)
     print(f'{len(rows) - sum(not r["detected"] for r in rows)}/{len(rows)} '
           f'detected')
     return 1 if missed else 0
